@@ -1015,6 +1015,9 @@ func c29() {
 	for _, o := range ops {
 		l1 = append(l1, []c29Step{{V: o.V, Tok: o.Tok, Conn: 0}})
 	}
+	// level 1 is always run completely, so its order only matters for the wall time: the heaviest
+	// requests (10^4-element arrays, which can keep a server busy for a minute) are started first
+	sort.SliceStable(l1, func(i, j int) bool { return variants[l1[i][0].V].Rank > variants[l1[j][0].V].Rank })
 	levelOne = true
 	runLevel(1, l1)
 	levelOne = false
